@@ -248,6 +248,15 @@ fn program(job: &Value) -> Result<ResolvedTransaction, String> {
         }
         "exec" => single("exec_caller_from_cell_data", &[], num(1, 2), &["exec_callee"], vec![]),
         "exec_witness" => single("exec_caller_from_witness", &[], num(1, 2), &[], vec![testdata("exec_callee")]),
+        // dlopen-style: load_cell_data_as_code maps is_even.lib (found by data hash) and calls into it; args = number ++ data hash
+        // (load_is_even_with_snapshot needs the test-only DEBUG_PAUSE syscall: InvalidEcall(2178) outside the crate's own tests;
+        // load_is_even_into_global fails at VM version 0 with MemWriteOnFreezedPage - a deterministic failure, kept as such)
+        "load_even" | "load_even_global" => {
+            let lib = testdata("is_even.lib");
+            let mut args = 1u64.to_le_bytes().to_vec();
+            args.extend_from_slice(CellOutput::calc_data_hash(&lib).as_slice());
+            single(if parts[0] == "load_even" { "load_is_even_with_snapshot" } else { "load_is_even_into_global" }, &args, num(1, 1), &["is_even.lib"], vec![])
+        }
         "cpop" => single("cpop_lock", &[], num(1, 1), &[], vec![]),
         "dag" => single("spawn_dag", &[], 2, &[], vec![dag_witness(&job["dag"])]),
         "fuzzing" => {
